@@ -619,6 +619,7 @@ func (c *client) keepalive() {
 		case <-t.C:
 			verifhook.Point("ka.tick")
 			if err := check(); err != nil {
+				verifhook.Point("ka.after-check")
 				c.Logger.Errorf("keepalive error: %v", err)
 				c.reconnecting()
 				continue
